@@ -552,6 +552,69 @@ pub fn run(tier: &str) -> i32 {
             );
         }
     }
+    // ---- a user / a whole pool deleted from the configuration: after the reload its (still
+    // correct) old credentials are no longer a configured pair
+    for (what, trigger) in [("user_removed", "reload"), ("pool_removed", "reload"), ("user_removed", "sighup"), ("pool_removed", "sighup")] {
+        let mut cell = Cell::new();
+        let m = cell.add_mock("db.s0.primary.0");
+        let m2 = cell.add_mock("olddb.s0.primary.0");
+        let mk = |cell: &Cell, full: bool| -> Cfg {
+            let mut cfg = Cfg::new();
+            let mut p = PoolCfg::single("db", "u1", "pw1", 2, vec![cell.server(m, "primary")]);
+            if full || what != "user_removed" {
+                let mut u2 = crate::pgcat::UserCfg::new("u2", "pw2", 2);
+                u2.key = "1".into();
+                p.users.push(u2);
+            }
+            cfg.pools.push(p);
+            if full || what != "pool_removed" {
+                cfg.pools.push(PoolCfg::single("olddb", "u3", "pw3", 2, vec![cell.server(m2, "primary")]));
+            }
+            cfg
+        };
+        let old = mk(&cell, true);
+        if let Err(e) = cell.start_pgcat(&old, &StartOpts::default()) {
+            rep.inconclusive(&format!("removal leg start: {:?}", e));
+            continue;
+        }
+        let addr = cell.addr();
+        let port = cell.pg().port;
+        let (ru, rdb, rpw) = if what == "user_removed" { ("u2", "db", "pw2") } else { ("u3", "olddb", "pw3") };
+        let att = |u: &str, d: &str, pw: &str| Attempt { class: format!("after_{}", what), good: true, user: u.into(), db: d.into(), resp: "correct".into(), password: pw.into(), pipeline_after_startup: false, pipeline_after_response: false, tls: false };
+        if !attempt(&addr, &att(ru, rdb, rpw), &None, 960_000).map(|o| o.auth_ok).unwrap_or(false) {
+            rep.inconclusive("removal leg: the pair was not admitted before the reload");
+            continue;
+        }
+        let new_toml = mk(&cell, false).to_toml(port);
+        cell.pg().rewrite_config(&new_toml);
+        let ev0 = cell.pg().events().iter().filter(|e| e.1 == "reload.end").count();
+        if trigger == "reload" {
+            if let Ok(mut a) = cell.pg().admin() {
+                let _ = a.query("RELOAD", 10_000);
+            }
+        } else {
+            cell.pg().signal(libc::SIGHUP);
+        }
+        let deadline = crate::util::now_ns() + 5_000_000_000;
+        while cell.pg().events().iter().filter(|e| e.1 == "reload.end").count() <= ev0 && crate::util::now_ns() < deadline {
+            sleep_ms(5);
+        }
+        sleep_ms(20);
+        rep.eval(2);
+        rep.count("removed_pairs_checked_after_reload", 1);
+        let still = attempt(&addr, &att(ru, rdb, rpw), &None, 960_001).map(|o| o.auth_ok).unwrap_or(false);
+        let kept = attempt(&addr, &att("u1", "db", "pw1"), &None, 960_002).map(|o| o.auth_ok).unwrap_or(false);
+        if still {
+            rep.violation(
+                &format!("C09|removed_pair_still_admitted_after_reload|what={}|trigger={}", what, trigger),
+                &format!("{}@{} was deleted from the configuration and the configuration reloaded ({}); a login with its old password still got AuthenticationOk", ru, rdb, trigger),
+                json!({"what": what, "trigger": trigger}),
+            );
+        }
+        if !kept {
+            rep.violation(&format!("C09|valid_credentials_refused|user=u1|db=db|after_{}", what), "the pair that stayed in the configuration is refused after the reload", json!({"what": what, "trigger": trigger}));
+        }
+    }
     // ---- auth_query pools whose hash could not be fetched when the pool was created (role not
     // yet on the server / server down): the login that makes the pooler fetch it is judged like
     // any other, for every response class
